@@ -197,6 +197,9 @@ async fn open_http(case: &Arc<Case>, addr: std::net::SocketAddr, c: usize, d: Du
 				if let Some(p) = buf.windows(4).position(|w| w == b"\r\n\r\n") {
 					break p + 4;
 				}
+				while pz.load(Ordering::SeqCst) {
+					sleep(Duration::from_millis(2)).await;
+				}
 				match rd.read(&mut tmp).await {
 					Ok(0) | Err(_) => break 'outer,
 					Ok(n) => buf.extend_from_slice(&tmp[..n]),
@@ -208,6 +211,10 @@ async fn open_http(case: &Arc<Case>, addr: std::net::SocketAddr, c: usize, d: Du
 				.find_map(|l| l.strip_prefix("content-length:").map(|v| v.trim().parse::<usize>().unwrap_or(0)))
 				.unwrap_or(0);
 			while buf.len() < head_end + len {
+				// a paused reader stops in the middle of a response too (at most one 4 KiB read later)
+				while pz.load(Ordering::SeqCst) {
+					sleep(Duration::from_millis(2)).await;
+				}
 				match rd.read(&mut tmp).await {
 					Ok(0) | Err(_) => break 'outer,
 					Ok(n) => buf.extend_from_slice(&tmp[..n]),
